@@ -368,7 +368,10 @@ class FuncFacts:
     @staticmethod
     def _apply_kills(fs: FrozenSet[Atom], kill_all: bool, writes: Set[str], names: Set[str] = frozenset()) -> FrozenSet[Atom]:
         if kill_all or '*' in writes:
-            return frozenset()
+            # what survives ANY foreign code: a local that stands for a predicate over locals only (``is_ns = isinstance(port, PortNamespace)``) -- nobody else can
+            # re-bind a local, and the type of an object does not change under it
+            keep = frozenset(a for a in fs if a[0] == 'flagdef' and FuncFacts._locals_only(a[2]) and not (var_tokens(a[1]) | var_tokens(a[2])) & set(names))
+            return keep
         if not writes and not names:
             return fs
         out = []
@@ -405,6 +408,24 @@ class FuncFacts:
         if isinstance(v, ast.Call) and self.is_future_ctor(v):
             return {('fresh', k), ('F', f'{k}.done()'), ('notnone', k), ('T', k)}
         return set()
+
+    @staticmethod
+    def _locals_only(text: str) -> bool:
+        try:
+            e = ast.parse(text, mode='eval').body
+        except SyntaxError:
+            return False
+        for n in ast.walk(e):
+            if isinstance(n, ast.Attribute):
+                # (only as the CLASS argument of a type test: ``isinstance(x, mod.Class)``)
+                if not any(isinstance(c, ast.Call) and isinstance(c.func, ast.Name) and c.func.id in ('isinstance', 'issubclass') and len(c.args) == 2 and any(n is y for y in ast.walk(c.args[1]))
+                           for c in ast.walk(e)):
+                    return False
+            if isinstance(n, ast.Call) and not (isinstance(n.func, ast.Name) and n.func.id in ('isinstance', 'issubclass', 'callable')):
+                return False
+            if isinstance(n, (ast.Subscript, ast.Await)):
+                return False
+        return True
 
     @staticmethod
     def _pure_predicate(e: ast.AST) -> bool:
